@@ -121,6 +121,12 @@ func init() {
 						arg.Add(r)
 					}
 					rs := sets[o.Set-1]
+					// the solid of the set is asked for between the operations too (and thrown away): what the set
+					// denotes at the end must not depend on it
+					if rng.Intn(2) == 0 {
+						rs.Solid()
+						arg.Solid()
+					}
 					switch o.Op {
 					case "add":
 						rs.Add(r)
